@@ -1,6 +1,6 @@
 (* C03 -- Queries match exactly the documents their logical meaning prescribes.
    Only statements, each closed by `exact <lemma>`, non-vacuity examples, refuted witnesses. *)
-From TV Require Import Base.Prelude Query.QuerySem Query.Compose Query.ComposeProofs Query.Phrase Query.PhraseProofs Query.MonoMap Query.Cases.
+From TV Require Import Base.Prelude Query.QuerySem Query.Compose Query.ComposeProofs Query.Phrase Query.PhraseProofs Query.MonoMap Query.Exists Query.Cases.
 From Coq Require Import Sorted.
 Local Open Scope N_scope.
 
@@ -164,6 +164,33 @@ Theorem C03_phrase_slop3_refuted :
   phrase_match true 1 (phrase_lists toks ts) = Some false.
 Proof. vm_compute. repeat split; reflexivity. Qed.
 
+(* ---------------------------------------------------------------- exists over dynamic columns *)
+(* ExistsWeight::scorer (JSON field with sub-paths: one column per path and type): whatever the number of
+   columns (per-document path below C03_EXISTS_BITSET_MIN_COLUMNS, precomputed bitset from it on) and whatever
+   their cardinalities (optional, multivalued, full, empty), the scorer contains document i iff some column
+   holds a value for it.  Re-proved on the regenerated threshold and shape of the bitset loop. *)
+Theorem C03_exists_columns_sound : forall max_doc b1 cols i,
+  i < max_doc -> Forall (column_wf max_doc) cols ->
+  dmem (exists_scorer max_doc b1 cols) i = existsb (fun c => mem i (snd c)) cols.
+Proof. exact exists_scorer_sound. Qed.
+
+(* ... hence it is a correct leaf scorer for `LExistsPaths fs` as soon as the columns represent the paths *)
+Theorem C03_exists_is_leaf : forall accepts seg b1 fs cols,
+  Forall (column_wf (max_doc seg)) cols ->
+  (forall i, i < max_doc seg -> existsb (fun c => mem i (snd c)) cols = existsb (has_value (doc_at seg i)) fs) ->
+  forall i, i < max_doc seg ->
+  dmem (exists_scorer (max_doc seg) b1 cols) i = leaf_matches accepts (doc_at seg i) (LExistsPaths fs).
+Proof. exact exists_scorer_meets_leaf_contract. Qed.
+
+(* witness for a bitset loop that skips multivalued columns: the array-only document is lost with 4
+   columns and found with 3 *)
+Theorem C03_exists_multivalued_refuted :
+  let cols := [(CardOptional, [0]); (CardOptional, [1]); (CardOptional, [2]); (CardMultivalued, [4; 5])] in
+  dmem (exists_scorer_shape true false 4 6 true cols) 4 = false /\
+  existsb (fun c => mem 4 (snd c)) cols = true /\
+  dmem (exists_scorer_shape true false 4 6 true (firstn 2 cols ++ skipn 3 cols)) 4 = true.
+Proof. exact exists_without_multivalued_refuted. Qed.
+
 (* ---------------------------------------------------------------- order-preserving encodings *)
 Theorem C03_encoding_monotone : forall a b, wf_value a -> wf_value b -> vtag a = vtag b ->
   vlt a b = (enc a <? enc b).
@@ -198,3 +225,6 @@ Print Assumptions C03_phrase.
 Print Assumptions C03_phrase_slop3_refuted.
 Print Assumptions C03_encoding_monotone.
 Print Assumptions C03_range_encoding.
+Print Assumptions C03_exists_columns_sound.
+Print Assumptions C03_exists_is_leaf.
+Print Assumptions C03_exists_multivalued_refuted.
